@@ -70,6 +70,11 @@ def _base_name(n):
     return n.id if isinstance(n, ast.Name) else None
 
 
+# calls that change state of the whole process (every engine instance, every later compilation sees it)
+PROCESS_WIDE = ('chdir', 'fchdir', 'chroot', 'putenv', 'unsetenv', 'umask', 'seed', 'signal', 'disable', 'enable', 'freeze', 'simplefilter',
+                'filterwarnings', 'excepthook', 'stack_size')
+
+
 def frame_obligations(rep, modules=MODULES):
     """C04/C18: no function writes module-level or class-level state; module and class bodies hold no mutable object."""
     for m in modules:
@@ -125,8 +130,9 @@ def frame_obligations(rep, modules=MODULES):
                     b = _base_name(n.func.value)
                     if b is not None and b not in locs and b not in ('self',):
                         probs.append('line %d: mutating call on global %s: %s' % (n.lineno, b, ast.unparse(n)[:50]))
-                if isinstance(n, ast.Call) and isinstance(n.func, ast.Attribute) and n.func.attr.startswith('set') \
-                        and isinstance(n.func.value, ast.Name) and n.func.value.id in ('sys', 'os', 'random', 'locale'):
+                if isinstance(n, ast.Call) and isinstance(n.func, ast.Attribute) and isinstance(n.func.value, ast.Name) \
+                        and n.func.value.id in ('sys', 'os', 'random', 'locale', 'signal', 'gc', 'threading', 'warnings') \
+                        and (n.func.attr.startswith('set') or n.func.attr in PROCESS_WIDE):
                     if not (m == 'engine' and q == 'YP.evaluate_bounded'):
                         probs.append('line %d: interpreter-wide setting %s' % (n.lineno, ast.unparse(n)[:50]))
             for d in fn.args.defaults + [x for x in fn.args.kw_defaults if x is not None]:
